@@ -95,8 +95,12 @@ struct String {
     }
 
     String &operator=(const Char_T *str) {
-        deallocate();
+        // 'str' may point into this string: copy it before the old storage is released.
+        Char_T *old_storage = Storage();
+
         copyString(str, StringUtils::Count(str));
+        Memory::Deallocate(old_storage);
+
         return *this;
     }
 
